@@ -948,6 +948,10 @@ CORPUS: list[tuple[str, str, str]] = [
     ("async_ctx", "deco", "@contextlib.asynccontextmanager\nasync def de1(x: int) -> AsyncIterator[int]:\n    yield x\n"),
     ("deco_not_in_all", "deco", "__all__ = ['de1']\ndef dc2(f: Callable[..., int]) -> Callable[..., int]:\n    return f\n@dc2\ndef de1(x: int) -> int:\n    return x\n"),
     ("alias_not_in_all", "alias", "__all__ = ['fa1']\nBl2: typing.TypeAlias = list[int]\ndef fa1(x: Bl2) -> Bl2:\n    return x\n"),
+    ("quoted_arg_import", "import_use", "import decimal as iu1_dec\nfrom fractions import Fraction as iu1_Fr\n"
+     "def iu1(x: list['iu1_dec.Decimal'], y: dict[str, 'iu1_Fr']) -> None: pass\n"),
+    ("class_rebound", "cls_methods", "def reg1(c): return c\nclass Cm2:\n    pass\nCm2 = reg1(Cm2)\n"
+     "class Cm3:\n    class In4:\n        pass\n    In4 = reg1(In4)\n"),
     ("namedtuple_default", "namedtuple", "class Nt1(NamedTuple):\n    x: int\n    y: str = 'd'\n"),
     ("namedtuple_coll_defaults", "namedtuple_func", "Nc1 = collections.namedtuple('Nc1', ['x', 'y'], defaults=[1])\n"),
     ("union_annotation", "fn", "def fn1(x: int | None, y: Optional[Union[int, str]] = None) -> int | None:\n    return x\n"),
@@ -1412,6 +1416,7 @@ def grammar_stage(ctx, vlib) -> None:
 # ---------------------------------------------------------------- annotation printing (coq/C19/Ann.v) vs the real printer
 ANN_LEAVES = [("int", "int"), ("str", "str"), ("Base", "Base"), ("None", "None"), ("bytes", "bytes"), ("Any", "Any")]
 ANN_HEADER = ("import typing\nimport typing as t\nimport collections\nimport collections.abc\n"
+              "import decimal\nfrom fractions import Fraction\nimport collections as cl\n"      # used ONLY inside quoted arguments
               "from typing import Any, Callable, Dict, List, Literal, Optional, Sequence, Set, Tuple, Type, Union\n"
               "class Base: pass\n")
 
@@ -1423,7 +1428,19 @@ def gen_ty(rng, depth: int, in_union: bool = False):
         return src, f'(UName "{n}" RPlain [])'
     k = rng.choice(["List", "tDict", "Seq", "OD", "Union", "Optional", "tOptional", "bar", "Callable", "CallableEll", "Literal", "tuple", "Type", "Set"]
                    if not in_union else ["List", "tDict", "Seq", "Callable", "Literal", "tuple", "Union", "Optional"])
-    sub = lambda u=False: gen_ty(rng, depth - 1, u)  # noqa
+    def sub(u: bool = False):
+        """a sub-type; at a subscript-argument position it may be written as a string literal (forward reference)"""
+        x = gen_ty(rng, depth - 1, u)
+        if u or rng.random() > 0.35:
+            return x
+        if rng.random() < 0.6:      # names whose ONLY use in the module is inside quotes
+            x = rng.choice([("decimal.Decimal", '(UName "decimal.Decimal" RPlain [])'), ("Fraction", '(UName "Fraction" RPlain [])'),
+                            ("cl.OrderedDict[str, Fraction]", '(UName "cl.OrderedDict" RPlain [UName "str" RPlain []; UName "Fraction" RPlain []])'),
+                            ("List[decimal.Decimal]", '(UName "List" (RReplace "list") [UName "decimal.Decimal" RPlain []])'),
+                            ("Optional[Fraction]", '(UName "Optional" ROptional [UName "Fraction" RPlain []])')])
+        if x[1].startswith("(UName") and "'" not in x[0] and '"' not in x[0]:
+            return "'" + x[0] + "'", f"(UQuoted {x[1]})"
+        return x
     if k == "List":
         a = sub(); return f"List[{a[0]}]", f'(UName "List" (RReplace "list") [{a[1]}])'
     if k == "Set":
@@ -1447,7 +1464,7 @@ def gen_ty(rng, depth: int, in_union: bool = False):
         xs = [x for x in xs if not x[1].startswith("(UUnion")]
         return " | ".join(x[0] for x in xs), "(UUnion [" + "; ".join(x[1] for x in xs) + "])"
     if k == "Callable":
-        xs = [sub() for _ in range(rng.randint(0, 2))]; r = sub()
+        xs = [gen_ty(rng, depth - 1) for _ in range(rng.randint(0, 2))]; r = sub()
         return "Callable[[" + ", ".join(x[0] for x in xs) + f"], {r[0]}]", '(UName "Callable" RPlain [UList [' + "; ".join(x[1] for x in xs) + f"]; {r[1]}])"
     if k == "CallableEll":
         r = sub(); return f"Callable[..., {r[0]}]", f'(UName "Callable" RPlain [UEll; {r[1]}])'
@@ -1472,7 +1489,13 @@ def canon_ast(n: ast.AST) -> str:
     if isinstance(n, ast.Subscript):
         sl = n.slice
         elts = list(sl.elts) if isinstance(sl, ast.Tuple) else [sl]
-        return "N(" + ast.unparse(n.value) + ",[" + ",".join(canon_ast(x) for x in elts) + "])"
+        lit = ast.unparse(n.value).endswith("Literal")
+
+        def arg(x: ast.AST) -> str:
+            if not lit and isinstance(x, ast.Constant) and isinstance(x.value, str):
+                return "Q(" + canon_ast(ast.parse(x.value, mode="eval").body) + ")"
+            return canon_ast(x)
+        return "N(" + ast.unparse(n.value) + ",[" + ",".join(arg(x) for x in elts) + "])"
     if isinstance(n, (ast.Name, ast.Attribute)):
         return "N(" + ast.unparse(n) + ",[])"
     if isinstance(n, ast.List):
@@ -1494,6 +1517,7 @@ Fixpoint show (t : nty) : string :=
   | NName n args => "N(" ++ n ++ ",[" ++ go args ++ "])"
   | NList items => "L[" ++ go items ++ "]"
   | NUnion items => "U[" ++ go items ++ "]"
+  | NQuoted n => "Q(" ++ show n ++ ")"
   | NEll => "E"
   | NLit s => "T(" ++ s ++ ")"
   end.
@@ -1580,7 +1604,22 @@ def ann_stage(ctx, vlib) -> None:
             if rt is None:
                 continue
             try:
-                names = {n.id for n in ast.walk(ast.parse(rt, mode="eval")) if isinstance(n, ast.Name)}
+                names = set()
+
+                def collect(node: ast.AST) -> None:
+                    if isinstance(node, ast.Subscript) and ast.unparse(node.value).endswith("Literal"):
+                        collect(node.value)
+                        return
+                    if isinstance(node, ast.Name):
+                        names.add(node.id)
+                    elif isinstance(node, ast.Constant) and isinstance(node.value, str):
+                        try:
+                            collect(ast.parse(node.value, mode="eval").body)      # a quoted forward reference
+                        except SyntaxError:
+                            pass
+                    for ch in ast.iter_child_nodes(node):
+                        collect(ch)
+                collect(ast.parse(rt, mode="eval").body)
             except SyntaxError:
                 continue
             for nm in names:
@@ -1985,20 +2024,29 @@ class EGen:
         names = EMIT_NAMES_CLS if in_class else EMIT_NAMES_TOP
         selfarg = "self" if in_class else ""
         kinds = kinds if kinds is not None else {}
-        group = {"func": "f", "dfunc": "f", "overload": "f", "prop": "f", "var": "v", "avar": "v", "alias": "v", "class": "c", "if": None}
+        group = {"func": "f", "dfunc": "f", "overload": "f", "prop": "f", "var": "v", "avar": "v", "alias": "v", "class": "c", "if": None, "rebind": None}
         for _ in range(n):
             nm = self.rng.choice(names)
-            k = self.rng.choice(["func", "func", "dfunc", "var", "avar", "alias", "class", "if", "overload", "prop"])
+            k = self.rng.choice(["func", "func", "dfunc", "var", "avar", "alias", "class", "class", "if", "overload", "prop", "rebind", "rebind"])
             # one name = one kind of definition per scope (a class re-bound as a variable makes the semantic analyser
             # report errors and changes what stubgen sees; alternatives of the SAME kind are what the model is about)
-            if group[k] is not None and kinds.get(nm, group[k]) != group[k]:
+            # a name may be re-bound by a plain function, a class, or an un-annotated assignment after ANY earlier kind of
+            # definition (that is what _toplevel_names / _vars are for); decorated functions, annotated variables and
+            # aliases only bind fresh names (re-binding with those makes the semantic analyser report errors and rewrite
+            # the AST, which is outside the model)
+            if k in ("dfunc", "overload", "prop", "alias", "avar") and nm in kinds:
                 continue
-            if k in ("dfunc", "overload", "prop", "alias") and nm in kinds:
-                continue     # re-defining a name with a decorated function / an alias is an error for the semantic analyser
+            if kinds.get(nm) == "F!" and k != "rebind":
+                continue
             if group[k] is not None:
-                kinds[nm] = group[k]
-                if k in ("dfunc", "overload", "prop"):
-                    kinds[nm] = "F!"      # nothing else may re-bind it
+                kinds[nm] = "F!" if k in ("dfunc", "overload", "prop") else group[k]
+            if k == "rebind":
+                if not kinds:
+                    continue
+                nm = self.rng.choice(sorted(kinds))
+                src.append(f"{ind}{nm} = dc0({nm})")
+                coq.append(f'IVar "{nm}" false VPlain []')
+                continue
             if k == "func":
                 src.append(f"{ind}def {nm}({selfarg}): pass")
                 coq.append(f'IFunc "{nm}" [] []')
